@@ -99,6 +99,8 @@ type Ctx struct {
 	qdone   map[string]bool
 	defOf   map[string]string // define-fun name -> its term
 	alias   map[string]string // contract-level name on the reference tree -> current source name
+	ms      map[string]string      // memory keys of this context (installed as memSorts)
+	mt      map[string]types.Type  // their Go types (installed as memTypes)
 	axiomLine map[int]bool // indices of lines that are global axioms (included in a query only when relevant)
 	pending []Term // definitional facts to be asserted (they may mention bound variables' skolems)
 }
@@ -110,6 +112,11 @@ func NewCtx() *Ctx {
 		trusted: map[string]bool{}, dropped: map[string]bool{}, ifaceTags: map[string]int{}, axiomLine: map[int]bool{},
 		bound: map[string]bool{}, qinst: map[string][]*qTemplate{}, qdone: map[string]bool{}, defOf: map[string]string{},
 	}
+	// the memory-key tables and the epoch counter belong to one generation
+	// context (scripts must not depend on which functions were verified before)
+	c.ms, c.mt = map[string]string{}, map[string]types.Type{}
+	useCtx(c)
+	epochCounter = 0
 	c.lines = append(c.lines,
 		"(declare-sort Iface 0)",
 		"(declare-sort StrKey 0)",
@@ -790,6 +797,15 @@ func (c *Ctx) readCell(ms *MemState, key string, arr Term, addr Term) Term {
 
 var memSorts = map[string]string{}
 var memTypes = map[string]types.Type{}
+
+// useCtx installs the memory-key tables of a context (generation is
+// sequential; terms are evaluated in an older context only when a known
+// finding's region is judged).
+func useCtx(c *Ctx) {
+	if c != nil && c.ms != nil {
+		memSorts, memTypes = c.ms, c.mt
+	}
+}
 
 var typeKeyRepl = strings.NewReplacer("\\", "/", "|", "!")
 
